@@ -4,11 +4,14 @@ output to compare with; the plug-in evaluates the property's decidable form on w
 
 Lines (tab separated):
   det.begin  <label> <n>
-  det.block  <height> <ok|empty> <txOk> <txFail> <hashA> <hashB> <hashChildA> <hashChildB> [<hashC>]
-      hashes of (ordered dump of every IAVL store ‖ all bank balances ‖ app hash ‖ tx + EndBlock results) after the
-      block, on two in-process instances (B after A and after a different warm-up workload in the same process; C,
-      thorough only, after a longer unrelated history) and in two fresh OS processes. Monitor `replay_equal`: all four are equal
-      (and none is missing).
+  det.block  <height> <ok|empty> <txOk> <txFail> <hashA> <hashB> <hashChildA> <hashChildB> <hashChildF> [<hashC>]
+      hashes of (ordered dump of every IAVL store ‖ all bank balances ‖ app hash ‖ validator updates) after the
+      block, on two in-process instances (B after A and after a different warm-up workload in the same process, with
+      wall-clock jitter; C, thorough only, after a longer unrelated history) and in three fresh OS processes (childF with
+      a shifted wall clock and another time zone). Monitor `replay_equal`: at least five hashes, all equal, none missing.
+  det.results <height> <nTx> <resA> <resB> <resChildA> <resChildB> <resChildF> [<resC>]
+      hashes of the block's transaction results (code, codespace, data, gas wanted / used, events with their attributes
+      in emitted order, of every DeliverTx) on the same replicas. Monitor `results_equal`: at least five, all equal.
   det.site   <name> <ok> <runs> <distinct>
       the named function / block hook was run `runs` times in one process on identical inputs and produced `distinct`
       different results. Monitor `site_stable`: distinct = 1.
@@ -37,9 +40,15 @@ def handle (st : St) (seq : String) (f : List String) : St × List String :=
   | "det.block" :: h :: _ :: ok :: fail :: a :: b :: ca :: cb :: more =>
     match parseNat? h, parseNat? ok, parseNat? fail with
     | some _, some _, some _ =>
-      if more.length ≤ 1 && replayEqual ([a, b, ca, cb] ++ more) then ({ st with blocks := st.blocks + 1 }, [])
+      if 1 ≤ more.length && more.length ≤ 2 && replayEqual ([a, b, ca, cb] ++ more) then ({ st with blocks := st.blocks + 1 }, [])
       else ({ st with blocks := st.blocks + 1 }, [s!"MON\t{seq}\treplay_equal"])
     | _, _, _ => (st, [s!"BAD\t{seq}\tdet.block fields"])
+  | "det.results" :: h :: n :: a :: b :: ca :: cb :: more =>
+    match parseNat? h, parseNat? n with
+    | some _, some _ =>
+      if 1 ≤ more.length && more.length ≤ 2 && replayEqual ([a, b, ca, cb] ++ more) then (st, [])
+      else (st, [s!"MON\t{seq}\tresults_equal"])
+    | _, _ => (st, [s!"BAD\t{seq}\tdet.results fields"])
   | ["det.site", _, _, runs, distinct] =>
     match parseNat? runs, parseNat? distinct with
     | some r, some d =>
